@@ -140,10 +140,10 @@ func checkC05(c *Ctx, r *Report) {
 			r.Check(bad == "", "DISPATCH-WRITTEN-ONCE", "sm4.candoAsm", pa.Pos(g.Pos()), "the dispatch variable is written only by package initialisation"+ifs(bad != "", ": written at "+bad))
 		}
 	}
-	r.Floor("kernels_amd64", 5)
-	r.Floor("kernels_arm64", 5)
-	r.Floor("kernel_output_blocks", 31)
-	r.Floor("wiring_sites", 6)
+	r.Floor("kernels_amd64", 3)
+	r.Floor("kernels_arm64", 3)
+	r.Floor("kernel_output_blocks", 15)
+	r.Floor("wiring_sites", 4)
 }
 
 func keysInt(m map[int]bool) []int {
